@@ -519,15 +519,15 @@ func ruleSubmitHelper(c *Check, p *Prog) {
 	n := 0
 	for _, x := range g.Exits {
 		ret := x.In.(*ssa.Return)
-		lit := structLitAlloc(ret.Results[0])
-		if lit == nil {
+		views := p.returnedLits(ret.Results[0], g.RootCtx, 2)
+		if len(views) != 1 {
 			c.Unk(rule, "SubmitWithHelpers ⟂ return-literal", fnName(fn), p.InstrPos(ret), "a return value that is not a struct literal")
 			continue
 		}
-		st := litStores(lit)
+		lv := views[0]
 		code := ""
-		if v := st["BaseResult.Code"]; len(v) == 1 {
-			code = TermOf(v[0], g.RootCtx).unconv().Name
+		if v := lv.Field("BaseResult.Code"); len(v) == 1 {
+			code = v[0].unconv().Name
 		}
 		if code != success {
 			continue
@@ -537,8 +537,8 @@ func ruleSubmitHelper(c *Check, p *Prog) {
 		c.Decide(rule, "SubmitWithHelpers ⟂ Success-only-without-error", fnName(fn), p.InstrPos(ret), "StatusSuccess is returned only on the nil-error edge of DA.SubmitWithOptions",
 			"StatusSuccess can be returned although DA.SubmitWithOptions failed: unsent blobs would be marked submitted", g, path)
 		cnt := ""
-		if v := st["BaseResult.SubmittedCount"]; len(v) == 1 {
-			cnt = TermOf(v[0], g.RootCtx).String()
+		if v := lv.Field("BaseResult.SubmittedCount"); len(v) == 1 {
+			cnt = v[0].String()
 		}
 		if strings.Contains(cnt, "len(") && strings.Contains(cnt, "SubmitWithOptions(") && strings.Contains(cnt, "#0") {
 			c.OK(rule, "SubmitWithHelpers ⟂ SubmittedCount=len(ids)", fnName(fn), p.InstrPos(ret), "SubmittedCount ← "+trunc(cnt, 100), true)
@@ -572,7 +572,7 @@ func rulePendingRange(c *Check, p *Prog) {
 		c.Unk("C06-R4", "pendingBase.getPending", "", "", "anchor lost")
 		return
 	}
-	g := BuildECFG(p, gp, ExpandOpts{MaxDepth: 0})
+	g := BuildECFG(p, gp, ownPkgOpts(rootPath+"/block", 1))
 	c.NoteGraph(g)
 	fn := genericName(fnName(gp))
 	fetch := g.Select(func(n *Node) bool {
@@ -1102,8 +1102,36 @@ func runC07(c *Check) {
 	c.MinInstances("C07-R2", 3)
 	// R3: callers of the increment
 	nCall := 0
-	for _, caller := range callersOf(p, incr) {
-		g := BuildECFG(p, caller, ExpandOpts{MaxDepth: 0})
+	// the outermost functions of the package that reach the increment through static calls: a
+	// helper that wraps the increment hands the obligation to whoever calls it
+	var entries []*ssa.Function
+	{
+		seen := map[*ssa.Function]bool{}
+		work := callersOf(p, incr)
+		for len(work) > 0 {
+			f := topParent(work[0])
+			work = work[1:]
+			if seen[f] {
+				continue
+			}
+			seen[f] = true
+			up := callersOf(p, f)
+			if len(up) == 0 || (f.Object() != nil && f.Object().Exported()) {
+				entries = append(entries, f)
+			}
+			if len(seen) < 12 {
+				work = append(work, up...)
+			}
+		}
+		sort.Slice(entries, func(i, j int) bool { return fnName(entries[i]) < fnName(entries[j]) })
+	}
+	isMapFn := p.Func(mgrM("SetRollkitHeightToDAHeight"))
+	isIncFn := p.Func(mgrM("IsDAIncluded"))
+	for _, caller := range entries {
+		g := BuildECFG(p, caller, ExpandOpts{MaxDepth: 3, Stop: func(f *ssa.Function) bool {
+			pk := fnPkg(f)
+			return pk == nil || pk.Pkg.Path() != rootPath+"/block" || f == incr || f == isMapFn || f == isIncFn
+		}})
 		c.NoteGraph(g)
 		for _, n := range g.Select(func(n *Node) bool { cc := CallCommonOf(n); return cc != nil && cc.StaticCallee() == incr }) {
 			nCall++
@@ -1314,7 +1342,7 @@ func ruleLoopSkipsOnlyWhenOwnTrackerEmpty(c *Check, p *Prog, rule string) {
 		}
 		ownEmpty := g.Select(EdgeWhere(func(t *Term, pol bool, n *Node) bool {
 			t, pol = normFact(t, pol)
-			if !pol || t.Op != "call" || n.Ctx.Depth != 0 {
+			if !pol || t.Op != "call" || n.Ctx.Depth > 2 {
 				return false
 			}
 			// X.isEmpty() where X.base is the tracker
